@@ -887,9 +887,10 @@ def spelling_record(fn: ast.FunctionDef) -> dict:
     lcs = {t.id for n in ast.walk(fn) if isinstance(n, (ast.Assign, ast.AnnAssign)) and isinstance(getattr(n, "value", None), ast.ListComp)
            for t in (n.targets if isinstance(n, ast.Assign) else [n.target]) if isinstance(t, ast.Name)}
     sds = {_txt(n) for n in ast.walk(fn) if isinstance(n, ast.Call) and isinstance(n.func, ast.Attribute) and n.func.attr == "setdefault" and len(n.args) == 2}
+    fors = {f"{_txt(n.target)}|{_txt(n.iter)}" for n in ast.walk(fn) if isinstance(n, ast.For)}
     return {"cmp": sorted(cmps), "aug": sorted(augs), "if": sorted(ifs), "mm": sorted(mms),
             "ifexp": sorted(ifexps), "ifstmt": sorted(ifstmts), "chain": sorted(chains), "while": sorted(whiles),
-            "lc": sorted(lcs), "sd": sorted(sds)}
+            "lc": sorted(lcs), "sd": sorted(sds), "for": sorted(fors)}
 
 
 def _is_minmax2(n) -> bool:
@@ -1035,6 +1036,54 @@ def restore_spellings(tree: ast.Module, relpath: str) -> int:
         rc, ra, ri, rm = set(r["cmp"]), set(r["aug"]), set(r["if"]), set(r.get("mm", []))
         rx, rs, rch, rw = set(r.get("ifexp", [])), set(r.get("ifstmt", [])), set(r.get("chain", [])), set(r.get("while", []))
         rsd = set(r.get("sd", []))
+        rfor = set(r.get("for", []))
+        # index loop <-> enumerate, whichever the reference function has for the same index name and sequence: `for i in range(len(X))`
+        # reading `X[i]`  <->  `for i, v in enumerate(X)` reading `v` (X is not rebound or resized and `v` / `X[i]` not stored to in the body
+        # in the direction that would matter; checked below)
+        for lp in [n for n in ast.walk(fn) if isinstance(n, ast.For)]:
+            hdr = f"{_txt(lp.target)}|{_txt(lp.iter)}"
+            if hdr in rfor:
+                continue
+            it = lp.iter
+            if isinstance(lp.target, ast.Name) and isinstance(it, ast.Call) and isinstance(it.func, ast.Name) and it.func.id == "range" and len(it.args) == 1 \
+                    and isinstance(it.args[0], ast.Call) and isinstance(it.args[0].func, ast.Name) and it.args[0].func.id == "len" and len(it.args[0].args) == 1:
+                X, I = it.args[0].args[0], lp.target.id
+                cands = [h for h in rfor if h.endswith(f"|enumerate({_txt(X)})") and h.startswith(f"({I},")]
+                if len(cands) == 1:
+                    V = cands[0].split("|")[0][1:-1].split(",")[1]
+                    want = _txt(ast.Subscript(value=X, slice=ast.Name(id=I, ctx=ast.Load()), ctx=ast.Load()))
+                    subs = [x for b_ in lp.body for x in ast.walk(b_) if isinstance(x, ast.Subscript) and _txt(x) == want]
+                    if V.isidentifier() and subs and all(isinstance(x.ctx, ast.Load) for x in subs) and not any(isinstance(x, ast.Name) and x.id == V for x in ast.walk(fn)):
+                        class RE(ast.NodeTransformer):
+                            def visit_Subscript(self, n):
+                                return ast.copy_location(ast.Name(id=V, ctx=ast.Load()), n) if any(n is x for x in subs) else self.generic_visit(n)
+                        lp.body = [RE().visit(b_) for b_ in lp.body]
+                        lp.target = ast.copy_location(ast.Tuple(elts=[ast.Name(id=I, ctx=ast.Store()), ast.Name(id=V, ctx=ast.Store())], ctx=ast.Store()), lp.target)
+                        lp.iter = ast.copy_location(ast.Call(func=ast.Name(id="enumerate", ctx=ast.Load()), args=[X], keywords=[]), it)
+                        n_done += 1
+            elif isinstance(lp.target, ast.Tuple) and len(lp.target.elts) == 2 and all(isinstance(e_, ast.Name) for e_ in lp.target.elts) \
+                    and isinstance(it, ast.Call) and isinstance(it.func, ast.Name) and it.func.id == "enumerate" and len(it.args) == 1 and not it.keywords:
+                I, V, X = lp.target.elts[0].id, lp.target.elts[1].id, it.args[0]
+                if f"{I}|range(len({_txt(X)}))" in rfor:
+                    uses = [x for b_ in lp.body for x in ast.walk(b_) if isinstance(x, ast.Name) and x.id == V]
+                    # V is only read, and only in statements that come before (or are) the first store to X[I] in the body
+                    stores = [k_ for k_, b_ in enumerate(lp.body) for x in ast.walk(b_) if isinstance(x, ast.Subscript) and isinstance(x.ctx, ast.Store) and _txt(x.value) == _txt(X)]
+                    first_store = min(stores) if stores else len(lp.body)
+                    ok_ = all(isinstance(x.ctx, ast.Load) for x in uses) and all(k_ <= first_store for k_, b_ in enumerate(lp.body) if any(x in uses for x in ast.walk(b_))) \
+                        and not any(isinstance(x, ast.Name) and x.id == V for x in ast.walk(fn) if not any(x is y for b_ in lp.body for y in ast.walk(b_)) and x is not lp.target.elts[1]
+                                    and not any(isinstance(c_, (ast.ListComp, ast.SetComp, ast.DictComp, ast.GeneratorExp)) and any(x is z for z in ast.walk(c_))
+                                                and any(isinstance(w, ast.Name) and w.id == V for g_ in c_.generators for w in ast.walk(g_.target)) for c_ in ast.walk(fn)))
+                    if ok_:
+                        class RV(ast.NodeTransformer):
+                            def visit_Name(self, n):
+                                if any(n is x for x in uses):
+                                    return ast.copy_location(ast.Subscript(value=copy.deepcopy(X), slice=ast.Name(id=I, ctx=ast.Load()), ctx=ast.Load()), n)
+                                return n
+                        lp.body = [RV().visit(b_) for b_ in lp.body]
+                        lp.target = ast.copy_location(ast.Name(id=I, ctx=ast.Store()), lp.target)
+                        lp.iter = ast.copy_location(ast.Call(func=ast.Name(id="range", ctx=ast.Load()), args=[ast.Call(func=ast.Name(id="len", ctx=ast.Load()), args=[X], keywords=[])], keywords=[]), it)
+                        n_done += 1
+        ast.fix_missing_locations(fn)
 
         class T(ast.NodeTransformer):
             def visit_Compare(self, n):
